@@ -219,7 +219,7 @@ func TestStack(t *testing.T) {
 		l := l
 		sig := "C16|" + l.name
 		rule := l.what + "; n = 10^3, 10^4 or 10^5 (+ jitter), call depth (runtime.Callers, relative to the caller of Get) sampled inside the steps; oracle: max depth at n <= max depth at n/100 + 8 frames, and the loop's value equals a directly computed reference; non-trivial iff n >= 10^4; distinct by (n, sampling)"
-		kit.Check(t, l.name+"/stack", rule, kit.Opt{Weight: 0.08, MinChecks: 4}, func(rt *rapid.T, rec *kit.Rec) {
+		kit.Check(t, l.name+"/stack", rule, kit.Opt{Weight: 0.006, MinChecks: 5}, func(rt *rapid.T, rec *kit.Rec) {
 			n := rapid.SampledFrom([]int{1000, 10000, 100000}).Draw(rt, "n") + rapid.IntRange(0, 99).Draw(rt, "jitter")
 			samples := rapid.IntRange(20, 400).Draw(rt, "samples")
 			rec.Case(n >= 10000, fmt.Sprintf("n=%d samples=%d", n, samples))
